@@ -92,6 +92,7 @@ STATEMENT_STATUS: Dict[str, str] = {
     "C16_paint_attributes": "proved (every path, ill-formed included: flags, width, dash, colours of the call)",
     "C16_painted_with_state_in_force": "proved (every painting operator on every interpreter state)",
     "C16_no_start_no_shape": "proved (a path that does not begin with m paints nothing)",
+    "C16_initial_colour_bound": "proved (more than 32 components: no initial colour; regenerated bound)",
 }
 
 # --------------------------------------------------------------------------- operators
@@ -363,7 +364,7 @@ def cs_arity(cs: Dict[str, Any], name: str) -> Optional[Tuple[int, bool]]:
 
 def iso_init(family: str, n: int):
     """ISO 32000-1 Table 74 (operator CS): the initial colour of a colour space."""
-    if family == "Pattern" or n == 0:
+    if family == "Pattern" or n == 0 or n > 32:     # no colour space has more than 32 components
         return None
     if family == "DeviceCMYK":
         return (F(0), F(0), F(0), F(1))
@@ -570,7 +571,7 @@ CS_POOL = [
      "D4": ("devn", 4), "D1": ("devn", 1)},
 ]
 # colour spaces with a number of components other than 1, 3, 4 (used by every 8th document only)
-CS_ODD = {"D2": ("devn", 2), "D5": ("devn", 5), "I2": ("icc", 2)}
+CS_ODD = {"D2": ("devn", 2), "D5": ("devn", 5), "I2": ("icc", 2), "D32": ("devn", 32), "I33": ("icc", 33)}
 
 
 class Gen:
